@@ -625,6 +625,9 @@ type FuncVal struct {
 	Bound    *types.Func
 	RecvCell *Cell
 	RecvVal  Value
+	// BoundOpaque: a method value of an uninterpreted object
+	BoundOpaque  *Opaque
+	OpaqueMethod string
 }
 
 // mapKey renders a constant key; ok=false when the key is symbolic.
